@@ -138,6 +138,21 @@ def m_info_default(tr, c):
         tr.emit(f"{tr.lv(Loc(code.discr, d.idxs))} = {code.vindex('Some')}; {tr.lv(Loc(code.variants[code.vindex('Some')][1].fields[0].fields[0], d.idxs))} = 0;")
 
 
+@model("AccountInfo::has_no_code_and_nonce", doc="revm-state: is_empty_code_hash() && nonce == 0")
+def m_no_code_nonce(tr, c):
+    info = _acc(tr, c.args[0])
+    c.ret(VScalar(f"({_info_is_empty_code_hash(tr, info)} && {tr.lv(Loc(info.node.f('nonce'), info.idxs))} == 0)", "_Bool"))
+
+
+@model("<Uint as TryInto>::try_into", "<Uint as TryFrom>::try_from", "Uint::try_into", doc="U256 -> integer: always fits at the abstract width")
+def m_u_try_into(tr, c):
+    d = c.dest()
+    n = d.node
+    tr.emit(f"{tr.lv(Loc(n.discr, d.idxs))} = {n.vindex('Ok')};")
+    okf = n.variants[n.vindex('Ok')][1].fields[0]
+    tr.emit(f"{tr.lv(Loc(okf, d.idxs))} = ({okf.ctype})({_v(tr, c.args[0])});")
+
+
 @model("EvmStorageSlot::is_changed", doc="revm-state: original_value != present_value")
 def m_slot_changed(tr, c):
     s = _acc(tr, c.args[0])
